@@ -132,23 +132,39 @@ def rule_reuse_first(fx, col):
             if H is None:
                 in_iter = False
                 continue
+            # state: (linked, value last written to `next`, value last assigned to the expected-head variable H); a value is named by
+            # the local it was copied from ('H' = whatever H holds at that moment). `next = head` links; so does assigning BOTH from
+            # the same value in either order (`head = newer; node.next = newer`); assigning only one of them unlinks.
+            BOT = ('?',)
+            def vid(op):
+                r_ = root_local(op)
+                return ('loc', r_) if r_ is not None else BOT
             def stmt_fn(st, bb, i, s_):
+                linked, nv, hv = st
                 if s_['k'] == 'assign':
                     if any(e['k'] == 'field' and e.get('adt') == 'arc_swap::debt::list::Node' and e.get('name') == 'next' for e in s_['dest']['proj']):
-                        return root_local(s_['rv'].get('op')) == H
+                        v = vid(s_['rv'].get('op'))
+                        if v == ('loc', H):
+                            return (True, hv, hv)
+                        return (v != BOT and v == hv, v, hv)
                     if s_['dest']['local'] == H and not s_['dest']['proj']:
-                        return False
+                        v = vid(s_['rv'].get('op')) if s_['rv']['k'] in ('use', 'cast') else BOT
+                        if v == ('loc', H):
+                            return st
+                        return (v != BOT and v == nv, nv, v)
                 return st
             def term_fn(st, bb, t):
                 if t['k'] == 'call' and t['dest']['local'] == H and not t['dest']['proj']:
-                    st2 = False
+                    st2 = (False, st[1], ('call', bb))
                 else:
                     st2 = st
                 return {x: st2 for x in ab.term_succs(bb, False)}
+            def meet(a_, b_):
+                return (a_[0] and b_[0], a_[1] if a_[1] == b_[1] else BOT, a_[2] if a_[2] == b_[2] else BOT)
             from . import dataflow as DF
-            ins, before = DF.forward(ab, False, stmt_fn, term_fn, lambda a, b_: a and b_, unwind=False)
-            in_iter = in_iter and before.get(p.bb) is True
-        col.add('REUSE-FIRST', '%s|next = expected head' % fn, (good and same and in_iter) or (good and from_field),
+            ins, before = DF.forward(ab, (False, BOT, BOT), stmt_fn, term_fn, meet, unwind=False)
+            in_iter = in_iter and bool(before.get(p.bb)) and before[p.bb][0] is True
+        col.add('REUSE-FIRST', '%s|next = expected head' % fn, (good and in_iter) or (good and from_field),
                 'node.next is set to the head the exchange expects, before the exchange' + ('' if in_iter else
                 ' — but NOT inside the retry loop: after a failed exchange the new expected head is no longer what next points to (nodes added in between are unlinked)'))
     # init makes space_offer point at the own envelope: ENVELOPE-PROVENANCE checks the value
